@@ -19,6 +19,7 @@ func init() {
 			{Name: "roundtrip@plain,checkptr", Quick: 1600, Thorough: 60000, Run: c05RoundTrip},
 			{Name: "huge-65536-chunks@plain", Quick: 1, Thorough: 4, Run: c05Huge, Serial: true},
 			{Name: "every-chunk-count@plain", ExhaustiveN: func(t string) int { return len(chunkCounts(t)) }, RunIndexed: c05EveryCount},
+			{Name: "receiver-growth-x-stream-size@plain", ExhaustiveN: growthCases, RunIndexed: func(c *Ctx, i int) { receiverGrowthCase(c, i, false) }},
 			{Name: "independent-bitmaps-concurrently@race", Quick: 6, Thorough: 200, Run: func(c *Ctx) { concIndependent(c, "portable32") }},
 		},
 	})
